@@ -1328,7 +1328,7 @@ def categorical_layer_spec(draw, tier):
               st.fixed_dictionaries({"k": st.just("keras"),
                                      "spec": KERAS_INIT}))),
           "reg": draw(keras_regs()),
-          "default": draw(st.sampled_from([None, None, -1, 7, -1.0])),
+          "default": draw(st.sampled_from([None, None, -1, 7, -1.0, 0, 0.0, 1])),
           "split": draw(st.sampled_from([None, False, True])),
           "name": draw(NAME), "wide_input": draw(st.booleans()),
           "int_input": draw(st.booleans())}
